@@ -132,6 +132,7 @@ type stepRes struct {
 }
 
 type execRes struct {
+	preS      string // the line up to (excluding) the first S; "" if no S was reached
 	line      string // canonical line compared with the model
 	parseErr  error
 	notFlash  bool
@@ -216,6 +217,9 @@ func exec(img []byte, pol0 byte, ops string) *execRes {
 			st.after = dump(tree)
 			fmt.Fprintf(&sb, " T=%s:%s", core.ErrClass(st.err), st.after)
 		case 'S':
+			if res.preS == "" {
+				res.preS = sb.String()
+			}
 			a := &visitors.Assemble{}
 			st.err = a.Run(tree)
 			if st.err == nil {
@@ -269,6 +273,12 @@ func validOps(s string) bool {
 }
 
 func (prop) Run(c core.Case) core.Outcome {
+	if c.Op == "tree" {
+		return runTree(c)
+	}
+	if c.Op == "large" {
+		return runLarge(c)
+	}
 	img := rleDecode(c.Args["img"])
 	p0, err := strconv.Atoi(c.Args["pol0"])
 	if err != nil || p0 < 0 || p0 > 255 || !validOps(c.Op) {
@@ -287,11 +297,10 @@ func (prop) Run(c core.Case) core.Outcome {
 	// the case's own op sequence: model correspondence
 	main := exec(img, pol0, c.Op)
 	O("input-untouched", "same", same(bytes.Equal(img, orig)))
-	if c.Args["files"] == "1" {
-		// generated with a volume that holds a file: outside the Lean model, oracles only
-	} else if main.withFiles {
-		// volumes with files are outside the Lean model (it must say so, not guess)
-		M("run", "run "+c.Args["pol0"]+" "+c.Op+" "+core.Hex(img), "P=unmodelled")
+	if main.withFiles && main.preS != "" {
+		// Assemble of a volume with files is outside the flash-level model (it must say so, not guess);
+		// parsing and tighten_me are inside it.  The tree-level cases (tree.go) cover the rest.
+		M("run", "run "+c.Args["pol0"]+" "+c.Op+" "+core.Hex(img), main.preS+" S=unmodelled")
 	} else {
 		M("run", "run "+c.Args["pol0"]+" "+c.Op+" "+core.Hex(img), main.line)
 	}
@@ -308,6 +317,16 @@ func (prop) Run(c core.Case) core.Outcome {
 
 func (prop) Shrink(c core.Case) []core.Case {
 	var cs []core.Case
+	if c.Op == "tree" {
+		ws := strings.Fields(c.Args["ops"])
+		for i := range ws {
+			if len(ws) > 1 {
+				rest := append(append([]string{}, ws[:i]...), ws[i+1:]...)
+				cs = append(cs, core.Case{Kind: c.Kind, Op: c.Op, Args: map[string]string{"img": c.Args["img"], "ops": strings.Join(rest, " ")}})
+			}
+		}
+		return cs
+	}
 	for i := 0; i < len(c.Op); i++ {
 		if len(c.Op) > 1 {
 			cs = append(cs, core.Case{Kind: c.Kind, Op: c.Op[:i] + c.Op[i+1:], Args: c.Args})
